@@ -1,3 +1,4 @@
+import Lean.Elab.Tactic
 import Octave.Lemmas.ParserWp
 /-!
 C20, parser side: **no hang** â€” the symbolic-execution tactic and the leaf loops.
@@ -112,11 +113,26 @@ theorem wpr_budget_le {r : List Token} {Q : Nat â†’ List Token â†’ Prop} (h : âˆ
     wpr budget r Q :=
   wpr_budget (h _ (by have := cB_le_length r; omega))
 
-/-- facts about a token type: generalise it and decide by cases. -/
+open Lean Elab Tactic in
+/-- clear every hypothesis the goal does not depend on. -/
+elab "clear_all" : tactic => liftMetaTactic fun g => do
+  let mut g := g
+  for fv in (â† g.getDecl).lctx.getFVarIds.reverse do
+    g â† g.tryClear fv
+  return [g]
+
+/-- facts about the type of the current token: generalise it, keep only the hypotheses that speak about it, and
+decide by cases. -/
 syntax "tt_tac" : tactic
 macro_rules | `(tactic| tt_tac) => `(tactic| first
   | decide
-  | (generalize (hd _).type = x at *
+  | (generalize hx : (hd _).type = x
+     simp only [hx] at *
+     clear hx
+     revert x
+     clear_all
+     intro x
+     intros
      cases x <;> first | decide | omega | (wt_norm; omega) | (simp_all [isValueTok, isExprOp]; done)))
 
 /-- extensible: calls of functions that already have a specification. -/
@@ -142,6 +158,7 @@ macro_rules | `(tactic| wp_step) => `(tactic| first
   | (cases â€¹Le _ _â€º)
   | (cases â€¹AdvRel _ _â€º)
   | (cases â€¹Same _ _â€º; rename_i h; subst h)
+  | (cases â€¹_ âˆ¨ _â€º)
   | with_reducible apply wpr_bind
   | with_reducible apply wpr_pure
   | with_reducible apply wpr_map
